@@ -920,3 +920,87 @@ def banked_text(isa_text, bankdefs, header, banks, lines, src_index, split):
             switched = True
         out.append(line + '\n')
     return ''.join(out)
+
+
+SLOW_BLOCK_WITNESS = """#ruledef
+{
+    s1 {x} => { assert(x <= 18), 0x11 @ x`8 }
+    s1 {x} => { assert(x > 18), 0x21 @ x`16 }
+    s2 {x} => { assert(x <= 18), 0x12 @ x`8 }
+    s2 {x} => { assert(x > 18), 0x22 @ x`16 }
+    s3 {x} => { assert(x <= 18), 0x13 @ x`8 }
+    s3 {x} => { assert(x > 18), 0x23 @ x`16 }
+    s4 {x} => { assert(x <= 22), 0x14 @ x`8 }
+    s4 {x} => { assert(x > 22), 0x24 @ x`16 }
+    s5 {x} => { assert(x <= 25), 0x15 @ x`8 }
+    s5 {x} => { assert(x > 25), 0x25 @ x`16 }
+    s6 {x} => { assert(x <= 21), 0x16 @ x`8 }
+    s6 {x} => { assert(x > 21), 0x26 @ x`16 }
+    jr {x} => { assert(x - $ <= 21), 0x33 @ (x - $)`8 }
+    jr {x} => { assert(x - $ > 21), 0x44 @ x`24 }
+    nop => 0x00
+    blk => asm {
+        s1 L
+        s2 L
+        s3 L
+        s4 L
+        s5 L
+        s6 L
+        L:
+    }
+}
+nop
+jr tgt
+#res r
+jr t0
+t1:
+blk
+#d8 0xb0, 0x5d, 0x7b, 0xb5
+tgt:
+t0:
+jr t1
+g:
+r = tgt - tgt + 1
+"""
+
+
+def gen_slow_block_case(rng):
+    """A block that needs many inner rounds where it lies in an early pass (staggered thresholds: one more line turns
+    long per round) but few where it finally lies, next to instructions with two consistent encodings.  Whether an
+    early guessing pass gets the block's value or Unknown then depends on the budget (the inner loop is bounded by the
+    same max_iterations): finding class asm_block_budget_coupling."""
+    m = rng.range(3, 9); p = rng.range(0, 3); K = rng.range(1, 30)
+    inc = rng.chance(0.7)
+    base = p + 2 * m + rng.range(-3, 3)
+    rules = []
+    for k in range(1, m + 1):
+        T = base + k * rng.choice([1, 1, 1, 2]) + rng.range(-2, 1)
+        lo, hi = ('<=', '>') if inc else ('>', '<=')
+        rules.append('s%d {x} => { assert(x %s %d), 0x1%x @ x`8 }' % (k, lo, T, k))
+        rules.append('s%d {x} => { assert(x %s %d), 0x2%x @ x`16 }' % (k, hi, T, k))
+    mb = rng.range(0, 6)
+    D = rng.range(0, 12) + (3 * m if rng.chance(0.5) else 0)
+    rules += ['jr {x} => { assert(x - $ <= %d), 0x33 @ (x - $)`8 }' % D, 'jr {x} => { assert(x - $ > %d), 0x44 @ x`24 }' % D, 'nop => 0x00']
+    ref = rng.choice(['L', 'L', 'g', 'L + g - g'])
+    inner = ['s%d %s' % (k, ref) for k in range(1, m + 1)]
+    inner.insert(rng.choice([m, m, rng.range(0, m)]), 'L:')
+    rules.append('blk => asm {\n        %s\n    }' % '\n        '.join(inner))
+    body = ['nop'] * p
+    filler = ['#d8 ' + ', '.join('0x%02x' % rng.below(256) for _ in range(mb))] if mb else []
+    lay = rng.below(4)
+    if lay == 0:
+        body += ['#res r', 'blk', 'jr tgt'] + filler + ['tgt:']
+    elif lay == 1:
+        body += ['#res r', 'jr tgt', 'blk'] + filler + ['tgt:']
+    elif lay == 2:
+        body += ['blk', '#res r', 'jr tgt'] + filler + ['tgt:', 'blk']
+    else:
+        body += ['jr tgt', '#res r', 'blk'] + filler + ['tgt:']
+    for q in range(rng.range(0, 3)):
+        body.insert(rng.range(0, len(body)), 'jr t%d' % q)
+        body.insert(rng.range(0, len(body)), 't%d:' % q)
+    if rng.chance(0.4):
+        body.insert(rng.range(0, len(body)), 'blk')
+    body += ['g:'] if rng.chance(0.5) else ['#res 2', 'g:']
+    body.append('r = tgt - tgt + %d' % K)
+    return '#ruledef\n{\n    %s\n}\n%s\n' % ('\n    '.join(rules), '\n'.join(body))
